@@ -179,6 +179,86 @@ def rawput_case(exe, it, run, stats):
             w.close(kill=True)
 
 
+def rawtwo_case(exe, it, run, stats):
+    """two Block1 uploads of one raw peer, block by block in turn, to two paths that the
+    server's unknown-resource handler both takes (no Request-Tag: the paths tell the
+    transfers apart, RFC 7959 2.5): each application call gets the body sent to its path"""
+    r = common.rng("c09-rawtwo-%d" % it)
+    szx = r.choice([0, 1, 2])
+    bs = 16 << szx
+    nblk = r.choice([2, 3, 5])
+    single = r.random() < 0.8
+    bodies = {b"u1": gen_body(r.randint(1, 10 ** 6), (nblk - 1) * bs + r.choice([1, bs])),
+              b"u2": gen_body(r.randint(1, 10 ** 6), (nblk - 1) * bs + r.choice([1, bs]))}
+    order = r.choice(["alternate", "alternate", "u1-first-block-then-u2-all"])
+    w = world.World(exe, seed=r.getrandbits(30))
+    sim = world.Sim(w, latency=1)
+    witness = {"kind": "rawtwo", "item": it, "szx": szx, "blocks": nblk, "single_body": single,
+               "order": order, "script": w.script}
+    peer = "10.0.7.9:40000"
+    try:
+        sim.cmd("fullpayload 1")
+        sim.add_node(1, block_mode=3 if single else 1)
+        sim.cmd("ep 1 udp %s" % SERVER)
+        sim.cmd("res 1 - kind=unknown")
+        sim.peers[peer] = lambda *a: None
+        seq = []
+        if order == "alternate":
+            for i in range(nblk):
+                seq += [(b"u1", i), (b"u2", i)]
+        else:
+            seq = [(b"u1", 0)] + [(b"u2", i) for i in range(nblk)] + \
+                [(b"u1", i) for i in range(1, nblk)]
+        mid = 0x5300
+        for name, i in seq:
+            mid += 1
+            v = (i << 4) | ((1 if i < nblk - 1 else 0) << 3) | szx
+            m = cw.msg(3, type=0, mid=mid, token=name[1:], options=[
+                (11, name), (27, v.to_bytes((v.bit_length() + 7) // 8, "big") if v else b"")],
+                payload=bodies[name][i * bs:(i + 1) * bs])
+            sim.inject(peer, SERVER, cw.encode(m, "udp"))
+            sim.run(until=sim.elapsed() + 10, quiesce=False)
+        sim.run(until=sim.elapsed() + 30000, quiesce=False)
+        stats["raw_uploads"] = stats.get("raw_uploads", 0) + 2
+        reqs = [e for e in sim.log if e["e"] == "req" and e.get("n") == 1]
+        for name, body in bodies.items():
+            mine = [e for e in reqs if bytes.fromhex(e.get("upath", "")) == name]
+            if single:
+                good = [e for e in mine if e.get("plen") == len(body) and
+                        bytes.fromhex(e.get("phex", "")) == body]
+                if len(good) != 1 or len(mine) != 1:
+                    run.violation("lossless-transfer-incomplete/rawtwo/unknown-resource-paths",
+                                  dict(witness, path=name.decode()),
+                                  "upload to /%s (%d bytes in %d blocks, interleaved with one "
+                                  "to the other path): handler calls (length, total) %r" %
+                                  (name.decode(), len(body), nblk,
+                                   [(e.get("plen"), e.get("ptot")) for e in mine]))
+            else:
+                cover = bytearray(len(body))
+                okb = True
+                for e in mine:
+                    off, ln = e.get("poff", 0), max(e.get("plen", 0), 0)
+                    if bytes.fromhex(e.get("phex", "")) != body[off:off + ln]:
+                        okb = False
+                    for k in range(off, min(off + ln, len(body))):
+                        cover[k] += 1
+                if not okb or any(c != 1 for c in cover):
+                    run.violation("blocks-do-not-tile-body/rawtwo/unknown-resource-paths",
+                                  dict(witness, path=name.decode()),
+                                  "upload to /%s: handler calls (length, offset) %r" %
+                                  (name.decode(), [(e.get("plen"), e.get("poff")) for e in mine]))
+        evs, rc, err = w.close()
+        if rc not in (0, None):
+            sg = common.sanitizer_signature(err) or "exit-rc%s" % rc
+            run.violation("teardown/rawtwo/%s" % sg, dict(witness, stderr=err[-3000:]), err[-1500:])
+        return ("rawtwo", szx, nblk, single, order)
+    except world.WorldCrash as e:
+        world.crash_violation(run, "C09/rawtwo", e, witness)
+    finally:
+        if not w.closed:
+            w.close(kill=True)
+
+
 def rawget_case(exe, it, run, stats):
     """a libcoap client downloads a body from a server that is not libcoap, which serves Block2
     without (or with) Size2 and with or without an ETag, loss-free: the requesting application
@@ -658,9 +738,9 @@ def work(job):
     for it in items:
         w = None
         witness = {"kind": kind, "item": repr(it)[:200], "seed": common.seed()}
-        if kind in ("both", "rawput", "rawget"):
-            sg = {"both": both_case, "rawput": rawput_case,
-                  "rawget": rawget_case}[kind](exe, it, run, stats)
+        if kind in ("both", "rawput", "rawget", "rawtwo"):
+            sg = {"both": both_case, "rawput": rawput_case, "rawget": rawget_case,
+                  "rawtwo": rawtwo_case}[kind](exe, it, run, stats)
             if sg:
                 sigs.add(sg)
             n += 1
@@ -853,6 +933,8 @@ def main(tier):
         jobs.append(("rawput", list(range(i, min(nraw, i + 8))), exe))
     for i in range(0, nraw, 8):
         jobs.append(("rawget", list(range(i, min(nraw, i + 8))), exe))
+    for i in range(0, nraw // 4, 8):
+        jobs.append(("rawtwo", list(range(i, min(nraw // 4, i + 8))), exe))
     nab = 24 if tier == "quick" else 600
     for i in range(0, nab, chunk):
         jobs.append(("abandon", list(range(i, min(nab, i + chunk))), exe))
